@@ -469,7 +469,7 @@ func checkC08(c *hx.Checker) {
 			}
 		}
 	}
-	for _, sh := range [][]int{{4, 5, 6}, {7, 2, 9}, {2, 3, 4, 5}, {33, 4}, {3, 1367}, {67, 5, 13}, {257, 129}, {4099}} {
+	for _, sh := range [][]int{{4, 5, 6}, {7, 2, 9}, {2, 3, 4, 5}, {33, 4}, {3, 1367}, {67, 5, 13}, {257, 129}, {4099}, {65, 1009}, {70001}} {
 		data := ref.Distinct(ref.F32, sh)
 		r := len(sh)
 		for _, p := range perms(r) {
